@@ -49,3 +49,48 @@ def classify(prop, v, kf):
         except Exception:  # noqa: BLE001 - a broken classifier must not hide anything
             continue
     return None
+
+
+# ---------------------------------------------------------------------------
+# classifiers (pure predicates over the serialised case + failure signature)
+# ---------------------------------------------------------------------------
+
+
+def _cones(cd):
+    preds = {n: [] for n, _, _ in cd["nodes"]}
+    for u, v in cd["edges"]:
+        preds[v].append(u)
+    cones = {}
+    for n, t, o in cd["nodes"]:
+        if not o:
+            continue
+        seen, st = {n}, [n]
+        while st:
+            x = st.pop()
+            for p in preds[x]:
+                if p not in seen:
+                    seen.add(p)
+                    st.append(p)
+        cones[n] = seen
+    return cones
+
+
+@classifier
+def supergates_overlapping_output_cones(case, v):
+    """List-form supergates on a circuit with >=2 outputs whose cones share a gate:
+    the per-output supergates overlap and depend on each other cyclically, so the
+    library's final topological sort raises NetworkXUnfeasible."""
+    if case.get("supercircuit"):
+        return False
+    if "NetworkXUnfeasible" not in v["detail"]:
+        return False
+    cd = case["c"]
+    types = {n: t for n, t, _ in cd["nodes"]}
+    cones = _cones(cd)
+    outs = sorted(cones)
+    for i in range(len(outs)):
+        for j in range(i + 1, len(outs)):
+            shared = cones[outs[i]] & cones[outs[j]]
+            if any(types[n] not in ("input", "0", "1", "x") for n in shared):
+                return True
+    return False
